@@ -21,6 +21,11 @@ def main(chk):
         'the reference backend implements the protocol documentation for the statements in the families; Flush-terminated batches are outside the claim (this pgcat version discards Flush)',
     ]
     prog = chk.program('on')
+    # outside the client loop: a connection whose health check failed or TIMED OUT at checkout (the reply may still arrive later) must not stay in
+    # the pool -- whoever got it next would read that reply as the answer to its own statement (ConnectionPool::get / run_health_check from MIR)
+    import checks.c07 as c07
+    for roles in ((1,), (0, 1)):
+        c07.o3_get(chk, prog, roles, [], only={'failed-healthcheck-not-bad'}, props=('C01',))
     hobl.handle_obligations(chk, prog, {'C01'}, ['simple', 'session', 'extended', 'named', 'cuts', 'status', 'two-backends', 'malformed', 'copy', 'two-clients', 'timeouts', 'drops', 'checkout-failures'])
 
 
